@@ -17,10 +17,17 @@ import (
 // reported to Hook (which may block, i.e. schedule, or return an error, i.e.
 // inject a fault / crash).  FileMode makes Put non-atomic like the file
 // engine (create-truncate, then one visible update per Write call).
+type memCore struct {
+	mu    sync.Mutex
+	files map[string][]byte
+}
+
 type MemEngine struct {
-	mu       sync.Mutex
-	files    map[string][]byte
-	Hook     func(op StorageOp) error
+	*memCore
+	Hook func(op StorageOp) error
+	// Done, when set, is called after get / putx / close-of-put completed, with
+	// the bytes read or written and the outcome.
+	Done     func(op StorageOp, data []byte, err error)
 	FileMode bool
 	Trace    []StorageOp
 	TraceOn  bool
@@ -32,7 +39,21 @@ type StorageOp struct {
 	N    int
 }
 
-func NewMemEngine() *MemEngine { return &MemEngine{files: map[string][]byte{}} }
+func NewMemEngine() *MemEngine {
+	return &MemEngine{memCore: &memCore{files: map[string][]byte{}}}
+}
+
+// View returns an engine over the same files with its own hook and trace
+// (one view per client lets a scheduler tell the clients apart).
+func (m *MemEngine) View(hook func(op StorageOp) error) *MemEngine {
+	return &MemEngine{memCore: m.memCore, Hook: hook, FileMode: m.FileMode}
+}
+
+func (m *MemEngine) done(kind, path string, data []byte, err error) {
+	if m.Done != nil {
+		m.Done(StorageOp{kind, path, len(data)}, data, err)
+	}
+}
 
 func (m *MemEngine) Clone() *MemEngine {
 	m.mu.Lock()
@@ -111,9 +132,11 @@ func (m *MemEngine) Get(ctx context.Context, u *storage.URI) (storage.Reader, er
 	defer m.mu.Unlock()
 	b, ok := m.files[skey(u)]
 	if !ok {
+		m.done("get", skey(u), nil, fs.ErrNotExist)
 		return nil, notExist(u)
 	}
 	b = bytes.Clone(b)
+	m.done("get", skey(u), b, nil)
 	return &memReader{bytes.NewReader(b), int64(len(b))}, nil
 }
 
@@ -148,6 +171,7 @@ func (w *memWriter) Close() error {
 	w.m.mu.Lock()
 	w.m.files[w.path] = bytes.Clone(w.buf)
 	w.m.mu.Unlock()
+	w.m.done("close", w.path, w.buf, nil)
 	return nil
 }
 
@@ -170,6 +194,7 @@ func (m *MemEngine) PutIfNotExists(ctx context.Context, u *storage.URI, b []byte
 	m.mu.Lock()
 	if _, ok := m.files[skey(u)]; ok {
 		m.mu.Unlock()
+		m.done("putx", skey(u), b, fs.ErrExist)
 		return &fs.PathError{Op: "open", Path: skey(u), Err: fs.ErrExist}
 	}
 	if m.FileMode {
@@ -182,6 +207,7 @@ func (m *MemEngine) PutIfNotExists(ctx context.Context, u *storage.URI, b []byte
 	}
 	m.files[skey(u)] = bytes.Clone(b)
 	m.mu.Unlock()
+	m.done("putx", skey(u), b, nil)
 	return nil
 }
 
